@@ -5,7 +5,7 @@ package grl
 var fieldTypes = map[string]Type{
 	"I": TInt, "I32": TInt, "I8": TInt, "U64": TUint, "U16": TUint, "U8": TUint,
 	"F": TFloat, "F32": TFloat, "S": TString, "S2": TString, "B": TBool, "T": TTime,
-	"P": TPtr, "P.X": TInt, "P.Y": TString, "P.Z": TFloat, "P.Q": TPtr, "P.Q.V": TInt, "P.Q.W": TString,
+	"P": TPtr, "P2": TPtr, "PN": TInt, "P.X": TInt, "P.Y": TString, "P.Z": TFloat, "P.Q": TPtr, "P.Q.V": TInt, "P.Q.W": TString,
 	"A[]": TInt, "AS[]": TString, "AF[]": TFloat, "M[]": TInt, "MS[]": TString,
 }
 
